@@ -37,6 +37,17 @@ def _call(f):
         return None, e
 
 
+def _lay(key, *arrays):
+    """the parameter / point arrays in the memory layout of the case (read-only)."""
+    kind = key.get('layout', 'C')
+    out = []
+    for a in arrays:
+        b = A.relayout(a, kind) if a.ndim >= 2 else np.array(a)
+        b.setflags(write=False)
+        out.append(b)
+    return out
+
+
 def _points_real(seed, D, mean, tag):
     r = A.rng(seed, 'pts', D, tag)
     e0 = np.zeros(D)
@@ -75,11 +86,10 @@ def run_gaussian(key):
             covs[idx] = np.diag(C) if ck in ('identity', 'diagonal') else np.linalg.eigvalsh(C)
         else:
             covs[idx] = {'identity': 1.0, 'diagonal': 0.3}.get(ck, 1.0 / math.sqrt(float(ck) if ck not in ('identity', 'diagonal') else 1.0))
+            covs[idx] *= 1.0 + 0.37 * sum((3 * i + 1) * v for i, v in enumerate(idx))   # differs per slice
         ys[idx] = _points_real(seed, D, m, idx)
     cls = {'full': d.Gaussian, 'diagonal': d.DiagonalGaussian, 'spherical': d.SphericalGaussian}[fam]
-    means.setflags(write=False)
-    covs.setflags(write=False)
-    ys.setflags(write=False)
+    means, covs, ys = _lay(key, means, covs, ys)
     got, e = _call(lambda: cls(mean=means, covariance=covs).log_pdf(ys))
     if e is not None:
         return viol(f'{cls.__name__}.log_pdf raised {e!r}')
@@ -111,8 +121,7 @@ def run_cgauss(key):
         r = A.rng(seed, 'cgpts', D, idx)
         e0 = np.eye(D)[0]
         ys[idx] = np.stack([np.zeros(D), e0 * (1 + 1j), A.cnormal(r, (D,)), 10 * A.cnormal(r, (D,))])
-    covs.setflags(write=False)
-    ys.setflags(write=False)
+    covs, ys = _lay(key, covs, ys)
     got, e = _call(lambda: d.ComplexCircularSymmetricGaussian(covariance=covs).log_pdf(ys))
     if e is not None:
         return viol(f'ComplexCircularSymmetricGaussian.log_pdf raised {e!r}')
@@ -151,9 +160,7 @@ def run_vmf(key):
         means[idx] = m
         ks[idx] = KAPPAS[(KAPPAS.index(kappa) + j) % len(KAPPAS)]
         ys[idx] = _sph_points(seed, D, m, idx, False) * [[1.0], [3.0], [1e-3], [1e3]]
-    means.setflags(write=False)
-    ks.setflags(write=False)
-    ys.setflags(write=False)
+    means, ks, ys = _lay(key, means, ks, ys)
     got, e = _call(lambda: d.VonMisesFisher(mean=means, concentration=ks).log_pdf(ys))
     if e is not None:
         return viol(f'VonMisesFisher.log_pdf raised {e!r}')
@@ -178,8 +185,7 @@ def run_watson(key):
         modes[idx] = m
         ks[idx] = KAPPAS[(KAPPAS.index(kappa) + j) % len(KAPPAS)]
         ys[idx] = _sph_points(seed, D, m, idx, True) * np.exp(1j * np.array([[0.0], [1.0], [2.0], [-0.7]]))
-    for a in (modes, ks, ys):
-        a.setflags(write=False)
+    modes, ks, ys = _lay(key, modes, ks, ys)
     got, e = _call(lambda: d.ComplexWatson(mode=modes, concentration=ks).log_pdf(ys))
     if e is not None:
         return viol(f'ComplexWatson.log_pdf raised {e!r}')
@@ -221,8 +227,7 @@ def run_bingham(key):
         lams[idx] = np.roll(lam0, j)  # any order of the eigenvalues
         ys[idx] = _sph_points(seed, D, U[:, 0], idx, True)
     amp = R.bingham_amplification(lam0)
-    for a in (Us, lams, ys):
-        a.setflags(write=False)
+    Us, lams, ys = _lay(key, Us, lams, ys)
     model = d.ComplexBingham(covariance_eigenvectors=Us, covariance_eigenvalues=lams)
     got, e = _call(lambda: model.log_pdf(ys))
     if e is not None:
@@ -261,10 +266,10 @@ def run_cacg(key):
     for idx in np.ndindex(*stack):
         C, cond = _cov(seed, D, ck, ('cacg', idx), complex_=True)
         lam, U = np.linalg.eigh(C)
-        Us[idx], lams[idx] = U, lam / lam.max()
+        # the density does not depend on the overall scale of the stored eigenvalues
+        Us[idx], lams[idx] = U, lam / lam.max() * key.get('scale', 1.0)
         ys[idx] = _sph_points(seed, D, U[:, -1], idx, True) * [[1.0], [1e-50], [1e50 * 1j], [-3.0]]
-    for a in (Us, lams, ys):
-        a.setflags(write=False)
+    Us, lams, ys = _lay(key, Us, lams, ys)
     got, e = _call(lambda: d.ComplexAngularCentralGaussian(
         covariance_eigenvectors=Us, covariance_eigenvalues=lams).log_pdf(ys))
     if e is not None:
@@ -439,6 +444,12 @@ def subchecks(tier, seed):
         conds = (1.0, 10.0, 1e2, 1e3, 1e4, 1e5, 1e6, 1e7, 1e8)
     covkinds = ('identity', 'diagonal') + tuple(str(c) for c in conds[1:])
 
+    def layouts(stack, D, also=True):
+        # other memory layouts of the parameter and point arrays: only where they differ from C order
+        if len(stack) >= 2 and also and (thorough or D in (1, 3, 8)):
+            return ('C', 'F', 'perm')
+        return ('C',)
+
     def gauss_cases():
         for fam in ('full', 'diagonal', 'spherical'):
             for D in range(1, 9):
@@ -447,8 +458,9 @@ def subchecks(tier, seed):
                         continue
                     for mk in ('zero', 'basis', 'generic'):
                         for stack in STACKS:
-                            yield (fam, D, ck, mk, stack, seed)
-    subs.append(Sub('gaussian', ('family', 'D', 'cov', 'mean', 'stack', 'seed'), gauss_cases,
+                            for lay in layouts(stack, D):
+                                yield (fam, D, ck, mk, stack, lay, seed)
+    subs.append(Sub('gaussian', ('family', 'D', 'cov', 'mean', 'stack', 'layout', 'seed'), gauss_cases,
                     run_gaussian, bound=dict(D='1..8', cond=list(CONDS), stacks=list(map(list, STACKS)))))
 
     def cg_cases():
@@ -457,39 +469,45 @@ def subchecks(tier, seed):
                 if D == 1 and ck not in ('identity', 'diagonal'):
                     continue
                 for stack in STACKS:
-                    yield (D, ck, stack, seed)
-    subs.append(Sub('complex_gaussian', ('D', 'cov', 'stack', 'seed'), cg_cases, run_cgauss))
+                    for lay in layouts(stack, D):
+                        yield (D, ck, stack, lay, seed)
+    subs.append(Sub('complex_gaussian', ('D', 'cov', 'stack', 'layout', 'seed'), cg_cases, run_cgauss))
 
     def vmf_cases():
         for D in range(2, 9):
             for k in KAPPAS:
                 for mk in ('basis', 'generic'):
                     for stack in STACKS:
-                        yield (D, k, mk, stack, seed)
-    subs.append(Sub('von_mises_fisher', ('D', 'kappa', 'mean', 'stack', 'seed'), vmf_cases, run_vmf))
+                        for lay in layouts(stack, D, k in (1.0, 100.0)):
+                            yield (D, k, mk, stack, lay, seed)
+    subs.append(Sub('von_mises_fisher', ('D', 'kappa', 'mean', 'stack', 'layout', 'seed'), vmf_cases, run_vmf))
 
     def wat_cases():
         for D in range(2, 7):
             for k in KAPPAS:
                 for mk in ('basis', 'generic'):
                     for stack in STACKS:
-                        yield (D, k, mk, stack, seed)
-    subs.append(Sub('complex_watson', ('D', 'kappa', 'mode', 'stack', 'seed'), wat_cases, run_watson))
+                        for lay in layouts(stack, D, k in (1.0, 100.0)):
+                            yield (D, k, mk, stack, lay, seed)
+    subs.append(Sub('complex_watson', ('D', 'kappa', 'mode', 'stack', 'layout', 'seed'), wat_cases, run_watson))
 
     def bing_cases():
         for D in range(2, 7):
             for sk in bingham_spectra(D):
                 for uk in ('identity', 'generic'):
                     for stack in STACKS:
-                        yield (D, sk, uk, stack, seed)
-    subs.append(Sub('complex_bingham', ('D', 'spectrum', 'U', 'stack', 'seed'), bing_cases, run_bingham))
+                        for lay in layouts(stack, D):
+                            yield (D, sk, uk, stack, lay, seed)
+    subs.append(Sub('complex_bingham', ('D', 'spectrum', 'U', 'stack', 'layout', 'seed'), bing_cases, run_bingham))
 
     def cacg_cases():
         for D in range(2, 7):
             for ck in covkinds:
                 for stack in STACKS:
-                    yield (D, ck, stack, seed)
-    subs.append(Sub('cacg', ('D', 'cov', 'stack', 'seed'), cacg_cases, run_cacg))
+                    for lay in layouts(stack, D):
+                        for scale in (1.0, 1e-12, 1e-15, 1e12) if lay == 'C' else (1.0,):
+                            yield (D, ck, stack, lay, scale, seed)
+    subs.append(Sub('cacg', ('D', 'cov', 'stack', 'layout', 'scale', 'seed'), cacg_cases, run_cacg))
 
     def int_cases():
         for mk in ('basis', 'generic'):
